@@ -46,6 +46,43 @@ func rulesC17(w *World, r *Report) {
 		return
 	}
 	r.role("pool type", []string{pool.Obj().Name()})
+	// census: the rules below are written for the channel design; every other
+	// type of the package that can stand behind the pool interface (Get() T /
+	// Return(T), found by shape) hands objects over by a discipline these rules
+	// do not read — it is reported as not decided, never passed over.
+	nImpl := 0
+	for _, name := range w.TPkg.Scope().Names() {
+		itn, ok := w.TPkg.Scope().Lookup(name).(*types.TypeName)
+		if !ok {
+			continue
+		}
+		iface, ok := itn.Type().Underlying().(*types.Interface)
+		if !ok || !types.Implements(types.NewPointer(pool), iface) || iface.NumMethods() == 0 {
+			continue
+		}
+		for _, name2 := range w.TPkg.Scope().Names() {
+			tn, ok := w.TPkg.Scope().Lookup(name2).(*types.TypeName)
+			if !ok || tn.IsAlias() {
+				continue
+			}
+			n, ok := tn.Type().(*types.Named)
+			if !ok || types.IsInterface(n) {
+				continue
+			}
+			if !types.Implements(n, iface) && !types.Implements(types.NewPointer(n), iface) {
+				continue
+			}
+			nImpl++
+			isChan := n == pool
+			key := fmt.Sprintf("%s implements %s", n.Obj().Name(), itn.Name())
+			if isChan {
+				r.add("C17.R4 every pool implementation is the channel design", key, w.pos(tn.Pos()), true, "the implementation examined by R1-R3 (buffered channel, select with default)")
+			} else {
+				r.undecided("C17.R4 every pool implementation is the channel design", key, w.pos(tn.Pos()), "a second implementation of the pool interface without the channel field: its hand-over discipline (one holder at a time, never blocks, bounded) is not decided by the channel rules — e.g. a Load followed by a Store on an atomic cell lets two overlapping Gets take the same object")
+			}
+		}
+	}
+	r.floor("C17.R4 pool implementations examined", nImpl, 1)
 	var methods []*ssa.Function
 	for _, fn := range w.SrcFuncs() {
 		if recv := fn.Signature.Recv(); recv != nil && namedIs(recv.Type(), hessianPath, pool.Obj().Name()) {
